@@ -72,11 +72,14 @@ class MiniInterp:
         self.stmt_hook = stmt_hook
 
     def eval_expr(self, node, env):
-        if self.expr_hook is not None:
-            hv = self.expr_hook(node, env)
-            if hv is not NotImplemented:
-                return hv
-        return self.ce.eval(node, self.mod, env)
+        if self.expr_hook is None:
+            return self.ce.eval(node, self.mod, env)
+        saved = self.ce.hook
+        self.ce.hook = self.expr_hook
+        try:
+            return self.ce.eval(node, self.mod, env)
+        finally:
+            self.ce.hook = saved
 
     def eval_guard(self, node, env) -> bool:
         if self.guard_hook is not None:
